@@ -984,6 +984,7 @@ func (srv *server) init(opts ...Options) (err error) {
 		}
 		srv.unackStore[v.ClientID] = ua
 	}
+	srv.statsManager.sessionsRestored(len(sts))
 	zaplog.Info("init queue store succeeded", zap.String("type", peType), zap.Int("session_total", len(cids)))
 	zaplog.Info("init subscription store succeeded", zap.String("type", peType), zap.Int("client_total", len(cids)))
 	err = srv.subscriptionsDB.Init(cids)
